@@ -123,7 +123,7 @@ def jobs(prop, tier):
           for (mode, hstate, nm) in phases:
             if nm == 'arb':
                 for (case, cn) in ((0, 'won'), (1, 'lost'), (2, 'silent')):
-                    J.append(Job(prop, 'act_arb_%s_nn%d' % (cn, nn), 'C02_step.cpp', defs={'NNMAX': nn, 'PROP': pn, 'MODE': mode, 'HSTATE': hstate, 'ARBCASE': case}, unwind=5, shape='S', timeout=3000 if T else 600,
+                    J.append(Job(prop, 'act_arb_%s_nn%d' % (cn, nn), 'C02_step.cpp', defs={'NNMAX': nn, 'PROP': pn, 'MODE': mode, 'HSTATE': hstate, 'ARBCASE': case}, unwind=5, shape='S', mem_gb=5, timeout=3000 if T else 600,
                          unwindset={'vp_main': 257, 'RecListener': nn + 8, 'related': nn + 8, 'relatedActive': nn + 8, 'reqIsM': nn + 8, 'setVec': nn + 8},
                          bounds='one handler step from every state in which the own arbitration address was written and its echo is awaited, case "%s" of {address echoed, other symbol, nothing read}, request NN <= %d' % (cn, nn), **BUS))
                 continue
@@ -132,7 +132,7 @@ def jobs(prop, tier):
                          bounds='one handler step from every state of phase "%s" of an own exchange related to a sender monitor state, request NN <= %d, response NN <= %d' % (nm, nn, nn), **BUS))
     if prop in ('C03', 'C04'):
         BUS = dict(link=['lib/ebus/symbol.cpp', 'lib/ebus/device_trans.cpp', 'lib/ebus/result.cpp', 'lib/utils/thread.cpp'],
-                   models=['string', 'libc', 'sstream', 'posix', 'containers'], solver=('minisat', 'kissat'), devirt_exclude=['_ZN5ebusd16ActiveBusRequest'])
+                   models=['string', 'libc', 'sstream', 'posix', 'containers'], solver=('minisat', 'kissat'), devirt_exclude=['_ZN5ebusd16ActiveBusRequest'], mem_gb=6)
         pn = int(prop[2])
         nn = 1
         # (requests waiting, device arbitration state 0 idle / 1 armed / 2 address written) x handler state group
@@ -151,6 +151,7 @@ def jobs(prop, tier):
             if not T and 'q%d_arm%d_%s' % (nq, arm, gn) + ('_gen' if gs else '') not in quick:
                 continue
             gdef = {'ENV_GENSYN': gs} if hg <= 1 else {}
+            BUS['mem_gb'] = 6 if arm == 2 else 3.5 if (gs or hg == 9) else 2   # measured peak RSS per process
             J.append(Job(prop, 'pas_q%d_arm%d_%s%s' % (nq, arm, gn, '_gen' if gs else ''), 'C03_passive.cpp', defs=dict({'NNMAX': nn, 'PROP': pn, 'NQ': nq, 'ARM': arm, 'HGROUP': hg}, **gdef), unwind=5, shape='S', timeout=3000 if T else 600,
                          unwindset={'vp_main': 257, 'RecListener': nn + 8, 'related': nn + 8, 'relatedActive': nn + 8, 'reqIsM': nn + 8, 'setVec': nn + 8, 'fillRequest': nn + 8},
                          bounds='one handler step from every passive handler state of group "%s" with %d request(s) waiting and the device %s, every read outcome; telegram parts NN <= %d (the data size of passive reception is C01\'s subject)' % (gn, nq, ('idle', 'armed for arbitration', 'waiting for the echo of its arbitration address')[arm], nn), **BUS))
@@ -253,6 +254,24 @@ def jobs(prop, tier):
                          bounds='%d updates of the referenced message with arbitrary value bytes at arbitrary clock steps of 0..2 s, availability asked after each; condition with or without value range, any range' % u, **MSG))
         J.append(Job('C13', 'history_combined_u2', 'C13_history.cpp', defs={'U': 2, 'COMBINED': None}, unwind=9, shape='R',
                      bounds='combined condition of two simple conditions on the same message, 2 updates', **MSG))
+    if prop == 'C09':
+        MSG = dict(link=['lib/ebus/message.cpp', 'lib/ebus/data.cpp', 'lib/ebus/datatype.cpp', 'lib/ebus/symbol.cpp', 'lib/ebus/result.cpp', 'lib/ebus/filereader.cpp', 'lib/ebus/contrib/contrib.cpp', 'lib/ebus/contrib/tem.cpp'],
+                   models=['string', 'libc', 'sstream', 'posix', 'containers', 'libm'], skip_ctors=['message', 'data.cpp', 'datatype', 'contrib', 'tem', 'filereader'],
+                   rtti=True, noop_containing=['_ZNSt8_Rb_tree+8_M_eraseEPSt13_Rb_tree_node'], solver=PORTFOLIO, timeout=1500 if T else 280)
+        import itertools
+        shapes = [(2, 1, 1, 2), (2, 0, 2, 1)] if not T else [(2, 1, 1, 2), (2, 0, 2, 1), (2, 2, 0, 3), (3, 1, 1, 1)]
+        for (p_, pre, lm, ls) in shapes:
+            for k_ in ((2, 3) if not T or p_ == 2 else (3, 4)):
+                for order in itertools.product(range(p_), repeat=k_):
+                    if not T and k_ == 3 and order not in ((0, 1, 0), (1, 0, 0), (0, 0, 1), (1, 1, 0)):
+                        continue
+                    d = {'P': p_, 'K': k_, 'PREFIX': pre, 'LM': lm, 'LS': ls}
+                    for i, o in enumerate(order):
+                        d['ORD%d' % i] = o
+                    if len(set(order)) == p_:
+                        d['EXPECT_COMBINE'] = None
+                    J.append(Job('C09', 'chain_p%d_%d%d%d_o%s' % (p_, pre, lm, ls, ''.join(map(str, order))), 'C09_chain.cpp', defs=d, unwind=p_ * max(lm, ls) + pre + 9, unwindset={'grow_insert': 22}, extra=['-DVP_VECGROW_FIXED=20'], shape='R',
+                                 bounds='chained message of %d parts (chain prefix %d byte(s), %d master and %d slave data byte(s) per part), parts arriving in the order %s, arbitrary data bytes, clock steps 0..3 s' % (p_, pre, lm, ls, order), **MSG))
     if prop == 'C20':
         # C20 = conjunction of the built-in safety obligations (bounds, pointer validity, freed objects, shifts, signed overflow,
         # division by zero, uncaught-throw model, unwinding assertions = bounded work) over kernels whose inputs are arbitrary buffers
@@ -326,6 +345,7 @@ META = {
    outside_claim='re-adding an already queued message / removal (erase from the middle of the heap), queues of more than 3 (thorough: 4) messages, 2^32 wrap of the virtual clock, message reload, BusHandler poll trigger',
    assumptions=COMMON_ASSUME + ['queue vector is heap-ordered before the step (std::priority_queue representation invariant)', 'virtual times within [clock-30, clock+priority]'],
  ),
+ 'C09': dict(claimed=False, na_reason='tbd', level_text='tbd', level_note='tbd', outside_claim='tbd', assumptions=COMMON_ASSUME),
  'C13': dict(
    level_text='Bounded model checking of two parts. (1) History: the real SimpleCondition::isTrue (verdict cache keyed by the referenced message\'s last change time) and CombinedCondition::isTrue, fed by the real Message::storeLastData(slave) change tracking, over U <= 3 (thorough 4) updates with arbitrary value bytes at arbitrary non-decreasing clock readings (steps of 0, 1 or 2 seconds, so several updates within one second are included) with an availability query after every update: not available before the first update; afterwards available iff the most recently stored value satisfies the condition (any range; value-less = seen); asking again gives the same verdict; same for a combined condition of two. (2) Resolution: the real field lookup used when a condition is resolved (DataFieldSet::hasField / SingleDataField::hasField): for every assignment of numeric/string kinds to up to 3 named fields and every query (unnamed or named, numeric or string) the answer is true iff a field of that name and kind exists.',
    level_note='History part: the Message is constructed partially (last-data members only; storeLastData is called non-virtually) and the value test checkValue -> decodeLastDataNumField -> DataFieldSet::read is replaced by a harness condition class that reads the stored data byte directly (same predicate on both sides; the subject is the history tracking, not the decoding, which C05 covers at type level). Outside: range/value-list parsing (splitValues), string conditions\' value comparison, SimpleCondition::resolve message lookup by name, scan conditions -- these sit on Message/MessageMap objects (std::map of strings) that this encoding does not reach within the cap.',
